@@ -89,6 +89,26 @@ def _src(v, reg=None, depth=6):
     return frozenset(d)
 
 
+def _kept_bits(v, name):
+    """how many low bits of the symbol `name` the value v carries in place (a copy through pack()/unpack() keeps the packed width)"""
+    from ..absval import BitV, NBITS
+    r = norm(net.resolve_unpacked(v, depth=8))
+    if isinstance(r, Sym) and r.name == name:
+        return NBITS
+    if not isinstance(r, BitV):
+        return 0
+    n = 0
+    for i, b in enumerate(r.bits):
+        if b == ("s", (name, i), False):
+            n += 1
+        else:
+            break
+    return n if all(b == 0 for b in r.bits[n:]) and r.hi == 0 else 0
+
+
+WIRE_WIDTH = {"from_node": 12, "to_node": 12, "frame_id": 16, "message_type": 8, "reserved": 8}     # TMRh20 header: 12-bit addresses, 16-bit id, two bytes
+
+
 def enqueue_rules(ck, agg, qf):
     S = net.structs(ck.prog)
     from .c06 import consts
@@ -146,7 +166,12 @@ def enqueue_rules(ck, agg, qf):
                             if isinstance(hdr, Ref):
                                 for k2, fld in enumerate(net.HDR_FIELDS):
                                     v = out.state.heap[hdr.ident].fields.get(fld)
-                                    good = good and _src(v, reg) == _src(st.heap[st.heap[frame.ident].fields["header"].ident].fields[fld])
+                                    v0 = st.heap[st.heap[frame.ident].fields["header"].ident].fields[fld]
+                                    good = good and _src(v, reg) == _src(v0)
+                                    if isinstance(norm(v0), Sym):
+                                        kb = _kept_bits(v, norm(v0).name)
+                                        agg.add("R12.2", f, "the queued copy keeps the whole %s (%d bits)" % (fld, WIRE_WIDTH[fld]), kb >= WIRE_WIDTH[fld],
+                                                "%s: the stored %s keeps only the low %d bits of the caller's value - two frames that differ above that are queued as equal, a later duplicate is not recognised" % (what, fld, kb))
                             agg.add("R12.2", f, "the copy carries the caller's header fields", good, "%s: stored header fields are not those of the caller's frame" % what)
                     # FIFO: appended at the tail
                     lst = out.state.heap[q.ident].fields[qf]
